@@ -40,14 +40,26 @@ OpStruct == [add_lapic |-> "lapic", add_ioapic |-> "ioapic", add_gicc |-> "gicc"
              add_aer_root_port |-> "aerroot", add_aer_device |-> "aerdev", add_aer_bridge |-> "aerbridge",
              add_ghes |-> "ghes", add_ghes_v2 |-> "ghesv2",
              add_controller |-> "qos", add_ecam |-> "ecam", add_entry |-> "xent"]
-IsAdd(e) == e.op \in DOMAIN OpStruct
-EntryLay(e, R) == SLay(OpStruct[e.op], SState(OpStruct[e.op], e, R))
+\* "add_default": an entry obtained from the entry type's Default (every field zero; the QoS controller's own
+\* length field still counts its 28-byte fixed part) handed to the table's add operation.  Such an entry has no
+\* type / length of its own, so it says nothing about C03/C04; the table-level facts (checksum, Length, counts,
+\* returned offsets) must hold all the same.
+DefaultSize == [lapic |-> 8, ioapic |-> 12, gicc |-> 82, gicd |-> 24, gicmsi |-> 24, gicr |-> 16, gicits |-> 20, rintc |-> 36,
+                imsic |-> 16, rintcaff |-> 20, mpda |-> 40, cache |-> 28, aerroot |-> 48, aerdev |-> 44, aerbridge |-> 56,
+                ghes |-> 64, ghesv2 |-> 92, qos |-> 28]
+DefaultBytes(st) == IF st = "qos" THEN <<0, 0, 28, 0>> \o Zeros(24) ELSE Zeros(DefaultSize[st])
+IsDefault(e) == e.op = "add_default"
+IsAdd(e) == e.op \in DOMAIN OpStruct \/ IsDefault(e)
+EntryLay(e, R) == IF IsDefault(e) THEN <<N("default", DefaultBytes(e.a.st))>> ELSE SLay(OpStruct[e.op], SState(OpStruct[e.op], e, R))
 EntryBytes(e, R) == LayBytes(EntryLay(e, R))
+HasDefaults(es) == \E i \in 1..Len(es) : IsDefault(es[i])
 Adds(ents) == SelectSeq(ents, IsAdd)
 
 \* which operations return a handle (and which kind of node the handle names)
 ReturnsHandle(op) == op \in {"add_processor", "add_cache", "add_isa_string", "add_cmo", "add_iommu",
                              "add_virtio_pci_iommu", "add_virtio_mmio_iommu"}
+
+ReturnsHandleE(e) == ReturnsHandle(e.op) \/ (IsDefault(e) /\ e.a.st = "cache")
 
 ---------------------------------------------------------------------------
 (* standard header (ACPI 5.2.6): signature, length, revision, checksum, OEM id, OEM table id, OEM revision,
